@@ -1,16 +1,774 @@
-(* C38 — proofs. *)
+(* C38 — proofs about the plugin programs of Model.v over the abstract IPAM. *)
 From Coq Require Import String List NArith Bool Arith Lia.
 From Verif.C38 Require Import Model Spec.
 Import ListNotations.
 
-(* a delete asks the IPAM to release the primary handle first *)
-Lemma del_first_call : forall c s os s' r cs rest,
-  exec (cmd_del c) s os = Some (s', r, cs, rest) ->
-  exists cs', cs = (CRelH (primary c), true) :: cs'.
+(* ---------------------------------------------------------------- reflection *)
+Lemma addr_eqb_eq : forall a b, addr_eqb a b = true <-> a = b.
 Proof.
-  intros c s os s' r cs rest H. unfold cmd_del in H. cbn [exec] in H.
-  destruct os as [|o os]; [discriminate|].
-  destruct (admissible s (CRelH (primary c)) o); [|discriminate].
-  match type of H with match ?e with _ => _ end = _ => destruct e as [[[[s1 r1] cs1] rest1]|] end; [|discriminate].
-  inversion H; subst. eexists; reflexivity.
+  destruct a, b; simpl; split; intro H; try discriminate; try (apply N.eqb_eq in H; subst; reflexivity);
+    inversion H; subst; apply N.eqb_refl.
+Qed.
+
+Lemma pair_eqb_eq : forall p q, pair_eqb p q = true <-> p = q.
+Proof.
+  intros [a h] [b g]; unfold pair_eqb; simpl. rewrite andb_true_iff, addr_eqb_eq, String.eqb_eq.
+  split; [intros [-> ->]; reflexivity | intro H; inversion H; auto].
+Qed.
+
+Lemma pair_dec : forall p q : addr * handle, {p = q} + {p <> q}.
+Proof.
+  intros p q. destruct (pair_eqb p q) eqn:E; [left; apply pair_eqb_eq, E | right; intro X; apply pair_eqb_eq in X; congruence].
+Qed.
+
+Lemma memp_In : forall p l, memp p l = true <-> In p l.
+Proof.
+  intros p l; unfold memp. rewrite existsb_exists. split.
+  - intros [x [Hx He]]. apply pair_eqb_eq in He. subst; exact Hx.
+  - intro H. exists p. split; [exact H | apply pair_eqb_eq; reflexivity].
+Qed.
+
+Lemma memp_false : forall p l, memp p l = false <-> ~ In p l.
+Proof.
+  intros p l. rewrite <- memp_In. destruct (memp p l); split; intro H.
+  - discriminate.
+  - exfalso; apply H; reflexivity.
+  - intro; discriminate.
+  - reflexivity.
+Qed.
+
+Lemma mema_In : forall a l, mema a l = true <-> In a l.
+Proof.
+  intros a l; unfold mema. rewrite existsb_exists. split.
+  - intros [x [Hx He]]. apply addr_eqb_eq in He. subst; exact Hx.
+  - intro H. exists a. split; [exact H | apply addr_eqb_eq; reflexivity].
+Qed.
+
+Lemma isnil_nil : forall A (l : list A), isnil l = true -> l = [].
+Proof. destruct l; simpl; [reflexivity | discriminate]. Qed.
+
+Lemma filter_all : forall A (f : A -> bool) l, (forall x, f x = true) -> filter f l = l.
+Proof. intros A f l H. induction l as [|x l IH]; simpl; [reflexivity | rewrite H, IH; reflexivity]. Qed.
+
+Lemma apply_out_nil : forall s o, o_add o = [] -> o_del o = [] -> apply_out s o = s.
+Proof.
+  intros s o Ha Hd. unfold apply_out. rewrite Ha, Hd, app_nil_r. apply filter_all. intro x; reflexivity.
+Qed.
+
+Lemma In_apply_out : forall p s o,
+  In p (apply_out s o) <-> (In p s /\ ~ In p (o_del o)) \/ In p (o_add o).
+Proof.
+  intros p s o. unfold apply_out. rewrite in_app_iff, filter_In, negb_true_iff, memp_false. tauto.
+Qed.
+
+Lemma held_by_nil : forall h s, held_by h s = [] -> forall p, In p s -> snd p <> h.
+Proof.
+  intros h s H p Hp Heq. assert (In p (held_by h s)) as X.
+  { unfold held_by. apply filter_In. split; [exact Hp | apply String.eqb_eq; exact Heq]. }
+  rewrite H in X. exact X.
+Qed.
+
+(* ---------------------------------------------------------------- what the contract gives, per call *)
+Lemma adm_common : forall s c o, admissible s c o = true ->
+  (forall p, In p (o_del o) -> In p s) /\ (forall p, In p (o_add o) -> ~ In (fst p) (map fst s)).
+Proof.
+  intros s c o H. unfold admissible in H. apply andb_true_iff in H as [H _]. apply andb_true_iff in H as [H1 H2].
+  rewrite forallb_forall in H1, H2. split; intros p Hp.
+  - apply memp_In, H1, Hp.
+  - specialize (H2 p Hp). rewrite negb_true_iff in H2. intro X. apply mema_In in X. congruence.
+Qed.
+
+Lemma adm_relh : forall s h o, admissible s (CRelH h) o = true ->
+  o_add o = [] /\
+  (forall p, In p (o_del o) -> In p s /\ snd p = h) /\
+  (o_err o = ENone -> forall p, In p s -> snd p = h -> In p (o_del o)) /\
+  (o_err o = ENotFound -> o_del o = [] /\ forall p, In p s -> snd p <> h).
+Proof.
+  intros s h o H. pose proof (adm_common _ _ _ H) as [Hd _].
+  unfold admissible in H. apply andb_true_iff in H as [_ H]. apply andb_true_iff in H as [H H3].
+  apply andb_true_iff in H as [H1 H2]. apply isnil_nil in H1. rewrite forallb_forall in H2.
+  split; [exact H1|]. split.
+  - intros p Hp. split; [apply Hd, Hp | apply String.eqb_eq, H2, Hp].
+  - split.
+    + intros He p Hp Hh. rewrite He in H3. rewrite forallb_forall in H3. specialize (H3 p Hp).
+      apply orb_true_iff in H3 as [X|X].
+      * rewrite negb_true_iff in X. apply String.eqb_neq in X. contradiction.
+      * apply memp_In, X.
+    + intros He. rewrite He in H3. apply andb_true_iff in H3 as [X Y]. apply isnil_nil in X, Y.
+      split; [exact X | apply held_by_nil, Y].
+Qed.
+
+Lemma adm_relips : forall s l o, admissible s (CRelIPs l) o = true ->
+  o_add o = [] /\
+  (forall p, In p (o_del o) -> In p s /\ In (fst p) l) /\
+  (o_err o = ENone -> forall p, In p s -> In (fst p) l -> In p (o_del o)).
+Proof.
+  intros s l o H. pose proof (adm_common _ _ _ H) as [Hd _].
+  unfold admissible in H. apply andb_true_iff in H as [_ H]. apply andb_true_iff in H as [H H3].
+  apply andb_true_iff in H as [H1 H2]. apply isnil_nil in H1. rewrite forallb_forall in H2.
+  split; [exact H1|]. split.
+  - intros p Hp. split; [apply Hd, Hp | apply mema_In, H2, Hp].
+  - intros He p Hp Hl. rewrite He in H3. rewrite forallb_forall in H3. specialize (H3 p Hp).
+    apply orb_true_iff in H3 as [X|X].
+    + rewrite negb_true_iff in X. apply mema_In in Hl. congruence.
+    + apply memp_In, X.
+Qed.
+
+Lemma adm_upgrade : forall s n o, admissible s (CUpgrade n) o = true -> o_add o = [] /\ o_del o = [].
+Proof.
+  intros s n o H. unfold admissible in H. apply andb_true_iff in H as [_ H]. apply andb_true_iff in H as [H1 H2].
+  split; apply isnil_nil; assumption.
+Qed.
+
+Lemma adm_assign : forall s a h o, admissible s (CAssign a h) o = true ->
+  o_del o = [] /\ (forall p, In p (o_add o) -> p = (a, h)) /\ (o_err o = ENone -> In (a, h) (o_add o)).
+Proof.
+  intros s a h o H. unfold admissible in H. apply andb_true_iff in H as [_ H]. apply andb_true_iff in H as [H H3].
+  apply andb_true_iff in H as [H1 H2]. apply isnil_nil in H1. rewrite forallb_forall in H2.
+  split; [exact H1|]. split.
+  - intros p Hp. symmetry. apply pair_eqb_eq, H2, Hp.
+  - intro He. rewrite He in H3. apply memp_In, H3.
+Qed.
+
+Lemma ret_ok_inv : forall n v4 r, ret_ok n v4 r = true ->
+  match r with
+  | None => n = 0
+  | Some l => n <> 0 /\ length l <= n /\ forall a, In a l -> is_v4 a = v4
+  end.
+Proof.
+  intros n v4 [l|]; simpl; intro H.
+  - apply andb_true_iff in H as [H H3]. apply andb_true_iff in H as [H1 H2].
+    rewrite negb_true_iff in H1. apply Nat.eqb_neq in H1. apply Nat.leb_le in H2.
+    rewrite forallb_forall in H3. repeat split; auto. intros a Ha. specialize (H3 a Ha).
+    unfold fam_ok in H3. apply Bool.eqb_prop in H3. exact H3.
+  - apply Nat.eqb_eq, H.
+Qed.
+
+Lemma adm_auto : forall s h n4 n6 o, admissible s (CAuto h n4 n6) o = true ->
+  o_del o = [] /\
+  (forall p, In p (o_add o) -> snd p = h /\ ~ In (fst p) (map fst s)) /\
+  (o_err o = ENone ->
+     ret_ok n4 true (o_r4 o) = true /\ ret_ok n6 false (o_r6 o) = true /\
+     (forall a, In a (olist (o_r4 o) ++ olist (o_r6 o)) -> In (a, h) (o_add o)) /\
+     (forall p, In p (o_add o) -> In (fst p) (olist (o_r4 o) ++ olist (o_r6 o)))).
+Proof.
+  intros s h n4 n6 o H. pose proof (adm_common _ _ _ H) as [_ Hf].
+  unfold admissible in H. apply andb_true_iff in H as [_ H]. apply andb_true_iff in H as [H H3].
+  apply andb_true_iff in H as [H1 H2]. apply isnil_nil in H1. rewrite forallb_forall in H2.
+  split; [exact H1|]. split.
+  - intros p Hp. split; [apply String.eqb_eq, H2, Hp | apply Hf, Hp].
+  - intro He. rewrite He in H3. apply andb_true_iff in H3 as [H3 H7]. apply andb_true_iff in H3 as [H3 H6].
+    apply andb_true_iff in H3 as [H4 H5]. rewrite forallb_forall in H6, H7.
+    repeat split; auto.
+    + intros a Ha. specialize (H6 a Ha). apply mema_In in H6. apply in_map_iff in H6 as [[a' h'] [E Hp]].
+      simpl in E. subst a'. pose proof (H2 _ Hp) as X. apply String.eqb_eq in X. simpl in X. subst h'. exact Hp.
+    + intros p Hp. apply mema_In, H7, Hp.
+Qed.
+
+(* ---------------------------------------------------------------- inversion of exec *)
+Lemma exec_call_inv : forall R c held (k : outcome -> prog R) s os s' r cs rest,
+  exec (Call c held k) s os = Some (s', r, cs, rest) ->
+  exists o os' cs', os = o :: os' /\ admissible s c o = true /\
+    exec (k o) (apply_out s o) os' = Some (s', r, cs', rest) /\ cs = (c, held) :: cs'.
+Proof.
+  intros R c held k s os s' r cs rest H. cbn [exec] in H.
+  destruct os as [|o os']; [discriminate|].
+  destruct (admissible s c o) eqn:A; [|discriminate].
+  destruct (exec (k o) (apply_out s o) os') as [[[[s1 r1] cs1] rest1]|] eqn:E; [|discriminate].
+  inversion H; subst. exists o, os', cs1. auto.
+Qed.
+
+Lemma exec_ret_inv : forall R (x : R) s os s' r cs rest,
+  exec (Ret x) s os = Some (s', r, cs, rest) -> s' = s /\ r = x /\ cs = [] /\ rest = os.
+Proof. intros. cbn [exec] in H. inversion H; subst; auto. Qed.
+
+(* exec consumes a prefix of the outcomes *)
+Lemma exec_consumes : forall R (p : prog R) s os s' r cs rest,
+  exec p s os = Some (s', r, cs, rest) -> exists used, os = used ++ rest /\ length used = length cs.
+Proof.
+  induction p as [x | c held k IH]; intros s os s' r cs rest H.
+  - apply exec_ret_inv in H as (-> & -> & -> & ->). exists []. auto.
+  - apply exec_call_inv in H as (o & os' & cs' & -> & A & E & ->).
+    apply IH in E as [used [-> L]]. exists (o :: used). simpl. auto.
+Qed.
+
+Lemma exec_pmap : forall A B (f : A -> B) (p : prog A) s os,
+  exec (pmap f p) s os =
+  match exec p s os with Some (s', r, cs, rest) => Some (s', f r, cs, rest) | None => None end.
+Proof.
+  induction p as [x | c held k IH]; intros s os; cbn [pmap exec].
+  - reflexivity.
+  - destruct os as [|o os']; [reflexivity|]. destruct (admissible s c o); [|reflexivity].
+    rewrite IH. destruct (exec (k o) (apply_out s o) os') as [[[[s1 r1] cs1] rest1]|]; reflexivity.
+Qed.
+
+(* ---------------------------------------------------------------- one ReleaseByHandle *)
+Lemma relh_effect : forall s h o, admissible s (CRelH h) o = true ->
+  incl (apply_out s o) s /\
+  (forall p, In p s -> ~ In p (apply_out s o) -> snd p = h) /\
+  (is_other (o_err o) = false -> forall p, In p (apply_out s o) -> snd p <> h) /\
+  ((forall p, In p s -> snd p <> h) -> apply_out s o = s).
+Proof.
+  intros s h o A. apply adm_relh in A as (Ha & Hd & Hok & Hnf).
+  split; [|split; [|split]].
+  - intros p Hp. apply In_apply_out in Hp as [[X _]|X]; [exact X | rewrite Ha in X; contradiction].
+  - intros p Hp Hn. destruct (in_dec pair_dec p (o_del o)) as [I|I].
+    + apply Hd, I.
+    + exfalso. apply Hn, In_apply_out. left. auto.
+  - intros He p Hp. apply In_apply_out in Hp as [[X Y]|X]; [|rewrite Ha in X; contradiction].
+    destruct (o_err o) eqn:E; try discriminate.
+    + intro Hh. apply Y, Hok; auto.
+    + destruct (Hnf eq_refl) as [_ Z]. apply Z, X.
+  - intro Hc. assert (o_del o = []) as Dn.
+    { destruct (o_del o) as [|p l] eqn:E; [reflexivity|]. exfalso.
+      destruct (Hd p) as [X Y]; [left; reflexivity|]. apply (Hc p X Y). }
+    apply apply_out_nil; assumption.
+Qed.
+
+(* ---------------------------------------------------------------- cmdDel *)
+Definition clean (c : container) (s : store) : Prop :=
+  forall p, In p s -> snd p <> primary c /\ snd p <> legacy c.
+
+Lemma del_inv : forall c s os s' r cs rest,
+  exec (cmd_del c) s os = Some (s', r, cs, rest) ->
+  exists o1 os1, os = o1 :: os1 /\ admissible s (CRelH (primary c)) o1 = true /\
+  ((is_other (o_err o1) = true /\ r = RFail /\ s' = apply_out s o1 /\ cs = [(CRelH (primary c), true)] /\ rest = os1) \/
+   (is_other (o_err o1) = false /\
+    exists o2 os2, os1 = o2 :: os2 /\ admissible (apply_out s o1) (CRelH (legacy c)) o2 = true /\
+      s' = apply_out (apply_out s o1) o2 /\ rest = os2 /\
+      cs = [(CRelH (primary c), true); (CRelH (legacy c), true)] /\
+      r = (if is_other (o_err o2) then RFail else RDelOk))).
+Proof.
+  intros c s os s' r cs rest H. unfold cmd_del in H.
+  apply exec_call_inv in H as (o1 & os1 & cs1 & -> & A1 & E & ->).
+  exists o1, os1. split; [reflexivity|]. split; [exact A1|].
+  destruct (is_other (o_err o1)) eqn:X.
+  - left. apply exec_ret_inv in E as (-> & -> & -> & ->). auto.
+  - right. split; [reflexivity|].
+    apply exec_call_inv in E as (o2 & os2 & cs2 & -> & A2 & E & ->).
+    exists o2, os2. split; [reflexivity|]. split; [exact A2|].
+    destruct (is_other (o_err o2)) eqn:Y; apply exec_ret_inv in E as (-> & -> & -> & ->); auto.
+Qed.
+
+(* a successful delete leaves nothing under either handle *)
+Lemma del_success_clean : forall c s os s' cs rest,
+  exec (cmd_del c) s os = Some (s', RDelOk, cs, rest) -> clean c s'.
+Proof.
+  intros c s os s' cs rest H. apply del_inv in H as (o1 & os1 & -> & A1 & [(_ & X & _)|(N1 & o2 & os2 & -> & A2 & -> & _ & _ & R)]).
+  - discriminate.
+  - destruct (is_other (o_err o2)) eqn:N2; [discriminate|].
+    pose proof (relh_effect _ _ _ A1) as (_ & _ & C1 & _).
+    pose proof (relh_effect _ _ _ A2) as (I2 & _ & C2 & _).
+    intros p Hp. split.
+    + apply (C1 N1). apply I2, Hp.
+    + apply (C2 N2), Hp.
+Qed.
+
+(* a delete (successful or not) only removes pairs, and only pairs of the container's handles *)
+Lemma del_harmless : forall c s os s' r cs rest,
+  exec (cmd_del c) s os = Some (s', r, cs, rest) ->
+  incl s' s /\ forall p, In p s -> ~ In p s' -> snd p = primary c \/ snd p = legacy c.
+Proof.
+  intros c s os s' r cs rest H. apply del_inv in H as (o1 & os1 & -> & A1 & [(_ & _ & -> & _)|(N1 & o2 & os2 & -> & A2 & -> & _ & _ & R)]).
+  - pose proof (relh_effect _ _ _ A1) as (I1 & D1 & _). split; [exact I1|]. intros p Hp Hn. left. apply D1; auto.
+  - pose proof (relh_effect _ _ _ A1) as (I1 & D1 & _).
+    pose proof (relh_effect _ _ _ A2) as (I2 & D2 & _).
+    split; [intros p Hp; apply I1, I2, Hp|].
+    intros p Hp Hn.
+    destruct (in_dec pair_dec p (apply_out s o1)) as [I|I].
+    + right. apply D2; auto.
+    + left. apply D1; auto.
+Qed.
+
+(* on a container that holds nothing, a delete whose IPAM calls do not fail succeeds and changes nothing *)
+Lemma del_on_clean : forall c s os s' r cs rest,
+  clean c s -> Forall (fun o => is_other (o_err o) = false) os ->
+  exec (cmd_del c) s os = Some (s', r, cs, rest) -> r = RDelOk /\ s' = s.
+Proof.
+  intros c s os s' r cs rest Hc Hf H.
+  apply del_inv in H as (o1 & os1 & -> & A1 & [(X & _)|(N1 & o2 & os2 & -> & A2 & -> & _ & _ & R)]).
+  - inversion Hf; subst. congruence.
+  - inversion Hf as [|? ? F1 Hf']; subst. inversion Hf' as [|? ? F2 _]; subst.
+    rewrite F2. split; [reflexivity|].
+    pose proof (relh_effect _ _ _ A1) as (_ & _ & _ & E1).
+    assert (apply_out s o1 = s) as E1' by (apply E1; intros p Hp; apply Hc, Hp).
+    rewrite E1' in *.
+    pose proof (relh_effect _ _ _ A2) as (_ & _ & _ & E2).
+    apply E2. intros p Hp; apply Hc, Hp.
+Qed.
+
+(* such non-failing answers exist: "not found" twice *)
+Definition notfound : outcome := {| o_err := ENotFound; o_r4 := None; o_r6 := None; o_add := []; o_del := [] |}.
+
+Lemma filter_none : forall A (f : A -> bool) l, (forall x, In x l -> f x = false) -> filter f l = [].
+Proof.
+  intros A f l. induction l as [|x l IH]; simpl; intro H; [reflexivity|].
+  rewrite H by (left; reflexivity). apply IH. intros y Hy. apply H. right; exact Hy.
+Qed.
+
+Lemma held_by_clean : forall h s, (forall p, In p s -> snd p <> h) -> held_by h s = [].
+Proof.
+  intros h s H. unfold held_by. apply filter_none. intros p Hp. apply String.eqb_neq. apply H, Hp.
+Qed.
+
+Lemma apply_notfound : forall s, apply_out s notfound = s.
+Proof.
+  intro s. apply apply_out_nil; reflexivity.
+Qed.
+
+Lemma del_on_clean_runs : forall c s, clean c s ->
+  exec (cmd_del c) s [notfound; notfound] =
+  Some (s, RDelOk, [(CRelH (primary c), true); (CRelH (legacy c), true)], []).
+Proof.
+  intros c s Hc. unfold cmd_del. cbn [exec].
+  assert (forall h, (forall p, In p s -> snd p <> h) -> admissible s (CRelH h) notfound = true) as A.
+  { intros h Hh. unfold admissible, notfound; simpl. rewrite (held_by_clean _ _ Hh). reflexivity. }
+  rewrite A by (intros p Hp; apply Hc, Hp). simpl. rewrite apply_notfound.
+  rewrite A by (intros p Hp; apply Hc, Hp). simpl. rewrite apply_notfound. reflexivity.
+Qed.
+
+(* ---------------------------------------------------------------- cmdAdd, requested address *)
+Lemma assign_effect : forall s a h o, admissible s (CAssign a h) o = true ->
+  incl s (apply_out s o) /\
+  (forall p, In p (apply_out s o) -> In p s \/ p = (a, h)) /\
+  (o_err o = ENone -> In (a, h) (apply_out s o)).
+Proof.
+  intros s a h o A. apply adm_assign in A as (Hd & Ha & Hok). split; [|split].
+  - intros p Hp. apply In_apply_out. left. rewrite Hd. auto.
+  - intros p Hp. apply In_apply_out in Hp as [[X _]|X]; auto.
+  - intro He. apply In_apply_out. right. auto.
+Qed.
+
+Lemma upgrade_effect : forall s n o, admissible s (CUpgrade n) o = true -> apply_out s o = s.
+Proof.
+  intros s n o A. apply adm_upgrade in A as [Ha Hd]. apply apply_out_nil; assumption.
+Qed.
+
+Lemma assign_k_spec : forall (mm : bool) a h s0 os0 s' (m' : bool) r cs rest,
+  exec (Call (CAssign a h) true (fun o => match o_err o with ENone => Ret (mm, RAddOk [a]) | _ => Ret (mm, RFail) end)) s0 os0
+    = Some (s', (m', r), cs, rest) ->
+  incl s0 s' /\ (forall p, In p s' -> In p s0 \/ p = (a, h)) /\
+  (r = RFail \/ (r = RAddOk [a] /\ In (a, h) s')) /\
+  (r = RFail -> Forall (fun o => o_err o = ENone) os0 -> False).
+Proof.
+  intros mm a h s0 os0 s' m' r cs rest E.
+  apply exec_call_inv in E as (o & os' & cs' & -> & A & E & _).
+  pose proof (assign_effect _ _ _ _ A) as (I & J & Kk).
+  destruct (o_err o) eqn:Er; apply exec_ret_inv in E as (-> & E2 & _ & _); inversion E2; subst;
+    (split; [exact I|]; split; [exact J|]; split).
+  - right. split; [reflexivity | apply Kk; reflexivity].
+  - intro X; discriminate.
+  - left; reflexivity.
+  - intros _ F. inversion F; subst. congruence.
+  - left; reflexivity.
+  - intros _ F. inversion F; subst. congruence.
+Qed.
+
+Lemma add_ip_spec : forall m h a s os s' m' r cs rest,
+  exec (add_ip m h a) s os = Some (s', (m', r), cs, rest) ->
+  incl s s' /\ (forall p, In p s' -> In p s \/ p = (a, h)) /\
+  (r = RFail \/ (r = RAddOk [a] /\ In (a, h) s')) /\
+  (r = RFail -> Forall (fun o => o_err o = ENone) os -> False).
+Proof.
+  intros m h a s os s' m' r cs rest H. unfold add_ip in H.
+  destruct m.
+  - apply assign_k_spec in H. exact H.
+  - apply exec_call_inv in H as (o & os' & cs' & -> & A & E & _).
+    rewrite (upgrade_effect _ _ _ A) in E.
+    destruct (o_err o) eqn:Er.
+    + apply assign_k_spec in E as (A' & B & C & D). repeat split; auto.
+      intros Rf F. inversion F; subst. auto.
+    + apply exec_ret_inv in E as (-> & E2 & _ & _). inversion E2; subst.
+      split; [apply incl_refl|]. split; [auto|]. split; [left; reflexivity|].
+      intros _ F. inversion F; subst. congruence.
+    + apply exec_ret_inv in E as (-> & E2 & _ & _). inversion E2; subst.
+      split; [apply incl_refl|]. split; [auto|]. split; [left; reflexivity|].
+      intros _ F. inversion F; subst. congruence.
+Qed.
+
+(* ---------------------------------------------------------------- cmdAdd, automatic assignment *)
+Lemma relips_effect : forall s l o, admissible s (CRelIPs l) o = true ->
+  incl (apply_out s o) s /\
+  (forall p, In p s -> ~ In p (apply_out s o) -> In (fst p) l) /\
+  (o_err o = ENone -> forall p, In p (apply_out s o) -> ~ In (fst p) l).
+Proof.
+  intros s l o A. apply adm_relips in A as (Ha & Hd & Hok). split; [|split].
+  - intros p Hp. apply In_apply_out in Hp as [[X _]|X]; [exact X | rewrite Ha in X; contradiction].
+  - intros p Hp Hn. destruct (in_dec pair_dec p (o_del o)) as [I|I].
+    + apply Hd, I.
+    + exfalso. apply Hn, In_apply_out. left. auto.
+  - intros He p Hp Hl. apply In_apply_out in Hp as [[X Y]|X]; [|rewrite Ha in X; contradiction].
+    apply Y, Hok; auto.
+Qed.
+
+(* what an execution of the AutoAssign path looks like (n4, n6 are 0 or 1, as computed from the configuration) *)
+Lemma add_auto_inv : forall h n4 n6 s os s' r cs rest,
+  (n4 = 0 \/ n4 = 1) -> (n6 = 0 \/ n6 = 1) ->
+  exec (add_auto h n4 n6) s os = Some (s', r, cs, rest) ->
+  exists o os1, os = o :: os1 /\ admissible s (CAuto h n4 n6) o = true /\
+  ((o_err o <> ENone /\ r = RFail /\ s' = apply_out s o /\ rest = os1 /\ cs = [(CAuto h n4 n6, true)]) \/
+   (o_err o = ENone /\
+    let l4 := olist (o_r4 o) in let l6 := olist (o_r6 o) in
+    ((r = RAddOk (l4 ++ l6) /\ length l4 = n4 /\ length l6 = n6 /\ s' = apply_out s o /\ rest = os1 /\
+      cs = [(CAuto h n4 n6, true)]) \/
+     (r = RFail /\ l4 = [] /\ l6 = [] /\ s' = apply_out s o /\ rest = os1 /\ cs = [(CAuto h n4 n6, true)]) \/
+     (r = RFail /\ n4 = 1 /\ n6 = 1 /\ (l4 = [] \/ l6 = []) /\ l4 ++ l6 <> [] /\
+      exists o' os2, os1 = o' :: os2 /\
+        admissible (apply_out s o) (CRelIPs (l4 ++ l6)) o' = true /\
+        s' = apply_out (apply_out s o) o' /\ rest = os2 /\
+        cs = [(CAuto h n4 n6, true); (CRelIPs (l4 ++ l6), false)])))).
+Proof.
+  intros h n4 n6 s os s' r cs rest Hn4 Hn6 H. unfold add_auto in H.
+  apply exec_call_inv in H as (o & os1 & cs1 & -> & A & E & ->).
+  exists o, os1. split; [reflexivity|]. split; [exact A|].
+  destruct (o_err o) eqn:Er.
+  2,3: left; apply exec_ret_inv in E as (-> & -> & -> & ->); repeat split; auto; intro; discriminate.
+  right. split; [reflexivity|].
+  pose proof (adm_auto _ _ _ _ _ A) as (_ & _ & Hok). destruct (Hok Er) as (R4 & R6 & _ & _).
+  apply ret_ok_inv in R4, R6.
+  destruct Hn4 as [-> | ->], Hn6 as [-> | ->];
+    destruct (o_r4 o) as [l4|], (o_r6 o) as [l6|];
+    try (destruct R4 as [R4' _]; congruence); try (destruct R6 as [R6' _]; congruence); try discriminate.
+  - (* 0,0 *) cbn in E. apply exec_ret_inv in E as (-> & -> & -> & ->). left. simpl. repeat split; auto.
+  - (* 0,1 *) destruct R6 as (_ & L6 & _). destruct l6 as [|a6 [|b6 l6]]; [| |simpl in L6; lia];
+      cbn in E; apply exec_ret_inv in E as (-> & -> & -> & ->); simpl.
+    + right; left. repeat split; auto.
+    + left. repeat split; auto.
+  - (* 1,0 *) destruct R4 as (_ & L4 & _). destruct l4 as [|a4 [|b4 l4]]; [| |simpl in L4; lia];
+      cbn in E; apply exec_ret_inv in E as (-> & -> & -> & ->); simpl.
+    + right; left. repeat split; auto.
+    + left. repeat split; auto.
+  - (* 1,1 *) destruct R4 as (_ & L4 & _). destruct R6 as (_ & L6 & _).
+    destruct l4 as [|a4 [|b4 l4]]; [| |simpl in L4; lia];
+      (destruct l6 as [|a6 [|b6 l6]]; [| |simpl in L6; lia]); cbn in E.
+    + apply exec_ret_inv in E as (-> & -> & -> & ->). right; left. simpl; repeat split; auto.
+    + destruct os1 as [|o' os2]; [discriminate|].
+      match type of E with (if ?a then _ else _) = _ => destruct a eqn:A' end; [|discriminate].
+      inversion E; subst. right; right. simpl.
+      repeat split; auto; try discriminate. do 2 eexists. repeat split; eauto.
+    + destruct os1 as [|o' os2]; [discriminate|].
+      match type of E with (if ?a then _ else _) = _ => destruct a eqn:A' end; [|discriminate].
+      inversion E; subst. right; right. simpl.
+      repeat split; auto; try discriminate. do 2 eexists. repeat split; eauto.
+    + apply exec_ret_inv in E as (-> & -> & -> & ->). left. simpl; repeat split; auto.
+Qed.
+
+Lemma olist_some : forall r a l, olist r = a :: l -> r = Some (a :: l).
+Proof. intros [x|] a l H; simpl in H; [subst; reflexivity | discriminate]. Qed.
+
+Lemma add_auto_spec : forall h n4 n6 s os s' r cs rest,
+  (n4 = 0 \/ n4 = 1) -> (n6 = 0 \/ n6 = 1) ->
+  exec (add_auto h n4 n6) s os = Some (s', r, cs, rest) ->
+  incl s s' /\
+  (forall p, In p s' -> In p s \/ snd p = h) /\
+  (forall ips, r = RAddOk ips ->
+     (n4 = 1 -> exists a, In a ips /\ is_v4 a = true /\ In (a, h) s') /\
+     (n6 = 1 -> exists a, In a ips /\ is_v4 a = false /\ In (a, h) s')) /\
+  (r = RFail -> Forall (fun o => o_err o = ENone) os -> incl s' s) /\
+  r <> RPanic /\ r <> RDelOk.
+Proof.
+  intros h n4 n6 s os s' r cs rest Hn4 Hn6 H.
+  apply add_auto_inv in H as (o & os1 & -> & A & H); auto.
+  pose proof (adm_auto _ _ _ _ _ A) as (Hd & Hadd & Hok).
+  assert (incl s (apply_out s o)) as I1.
+  { intros p Hp. apply In_apply_out. left. rewrite Hd. auto. }
+  assert (forall p, In p (apply_out s o) -> In p s \/ snd p = h) as J1.
+  { intros p Hp. apply In_apply_out in Hp as [[X _]|X]; [left; exact X | right; apply Hadd, X]. }
+  destruct H as [(Er & -> & -> & -> & _) | (Er & H)].
+  - split; [exact I1|]. split; [exact J1|]. split; [intros ips X; discriminate|].
+    split; [|split; discriminate]. intros _ F. inversion F; subst. contradiction.
+  - destruct (Hok Er) as (R4 & R6 & Hret & Hall). apply ret_ok_inv in R4, R6.
+    cbv zeta in H. destruct H as [(-> & L4 & L6 & -> & -> & _) | [(-> & E4 & E6 & -> & -> & _) | (-> & -> & -> & Hemp & Hne & o' & os2 & -> & A' & -> & -> & _)]].
+    + (* success *)
+      split; [exact I1|]. split; [exact J1|]. split; [|split; [discriminate | split; discriminate]].
+      intros ips X. inversion X; subst ips. split; intro N.
+      * subst n4. destruct (olist (o_r4 o)) as [|a l] eqn:E; [discriminate|].
+        exists a. split; [left; reflexivity|]. split.
+        -- apply olist_some in E. rewrite E in R4. destruct R4 as (_ & _ & F). apply F. left; reflexivity.
+        -- apply In_apply_out. right. apply Hret. try rewrite E. simpl. left; reflexivity.
+      * subst n6. destruct (olist (o_r6 o)) as [|a l] eqn:E; [discriminate|].
+        exists a. split; [apply in_or_app; right; left; reflexivity|]. split.
+        -- apply olist_some in E. rewrite E in R6. destruct R6 as (_ & _ & F). apply F. left; reflexivity.
+        -- apply In_apply_out. right. apply Hret. try rewrite E. apply in_or_app. right. left; reflexivity.
+    + (* both empty *)
+      split; [exact I1|]. split; [exact J1|]. split; [intros ips X; discriminate|].
+      split; [|split; discriminate]. intros _ _ p Hp.
+      apply In_apply_out in Hp as [[X _]|X]; [exact X|]. apply Hall in X. rewrite E4, E6 in X. contradiction.
+    + (* one family came back, released *)
+      pose proof (relips_effect _ _ _ A') as (I2 & D2 & C2).
+      split; [|split; [|split; [intros ips X; discriminate|split; [|split; discriminate]]]].
+      * intros p Hp. destruct (in_dec pair_dec p (apply_out (apply_out s o) o')) as [I|I]; [exact I|].
+        exfalso. specialize (D2 p (I1 p Hp) I). apply Hret in D2. apply Hadd in D2 as [_ Fr]. simpl in Fr.
+        apply Fr. apply in_map. exact Hp.
+      * intros p Hp. apply J1, I2, Hp.
+      * intros _ F. inversion F as [|? ? _ F']; subst. inversion F' as [|? ? E' _]; subst.
+        intros p Hp. pose proof (C2 E' p Hp) as Nl. apply I2 in Hp.
+        apply In_apply_out in Hp as [[X _]|X]; [exact X|]. exfalso. apply Nl, Hall, X.
+Qed.
+
+(* ---------------------------------------------------------------- one invocation *)
+Lemma num4_01 : forall a, num4 a = 0 \/ num4 a = 1.
+Proof. intros [[|]|]; simpl; auto. Qed.
+Lemma num6_01 : forall a, num6 a = 0 \/ num6 a = 1.
+Proof. intros [[|]|]; simpl; auto. Qed.
+
+Definition add_goal (c : container) (q : request) (ips : list addr) (s' : store) : Prop :=
+  match q with
+  | RAuto a4 a6 =>
+      (num4 a4 = 1 -> exists a, In a ips /\ is_v4 a = true /\ In (a, primary c) s') /\
+      (num6 a6 = 1 -> exists a, In a ips /\ is_v4 a = false /\ In (a, primary c) s')
+  | RIP a => ips = [a] /\ In (a, primary c) s'
+  end.
+
+Lemma run_op_add_spec : forall w c q os w' r cs,
+  run_op w (OpAdd c q) os = Some (w', r, cs) ->
+  incl (w_store w) (w_store w') /\
+  (forall p, In p (w_store w') -> In p (w_store w) \/ snd p = primary c) /\
+  (forall ips, r = RAddOk ips -> add_goal c q ips (w_store w')) /\
+  (r = RFail -> Forall (fun o => o_err o = ENone) os -> incl (w_store w') (w_store w)) /\
+  r <> RPanic /\ r <> RDelOk.
+Proof.
+  intros w c q os w' r cs H. unfold run_op in H.
+  destruct (exec (cmd_add (w_marker w) c q) (w_store w) os) as [[[[s1 [m1 r1]] cs1] rest1]|] eqn:E; [|discriminate].
+  destruct rest1; [|discriminate]. inversion H; subst; clear H. simpl.
+  destruct q as [a4 a6 | a]; unfold cmd_add in E.
+  - rewrite exec_pmap in E.
+    destruct (exec (add_auto (primary c) (num4 a4) (num6 a6)) (w_store w) os) as [[[[s2 r2] cs2] rest2]|] eqn:E2; [|discriminate].
+    inversion E; subst; clear E.
+    apply add_auto_spec in E2 as (A & B & C & D & F & G); [|apply num4_01|apply num6_01].
+    repeat split; auto; apply (C ips); assumption.
+  - apply add_ip_spec in E as (A & B & C & D).
+    split; [exact A|]. split.
+    { intros p Hp. apply B in Hp as [X| ->]; auto. }
+    split.
+    { intros ips X. simpl. destruct C as [C|[C1 C2]]; [congruence|]. rewrite C1 in X. inversion X; subst. auto. }
+    split.
+    { intros X F. exfalso. apply (D X F). }
+    destruct C as [->|[-> _]]; split; discriminate.
+Qed.
+
+Lemma run_op_del_spec : forall w c os w' r cs,
+  run_op w (OpDel c) os = Some (w', r, cs) ->
+  w_marker w' = w_marker w /\
+  incl (w_store w') (w_store w) /\
+  (forall p, In p (w_store w) -> ~ In p (w_store w') -> snd p = primary c \/ snd p = legacy c) /\
+  (r = RDelOk -> clean c (w_store w')) /\
+  (clean c (w_store w) -> Forall (fun o => is_other (o_err o) = false) os -> r = RDelOk /\ w' = w) /\
+  (r = RDelOk \/ r = RFail) /\
+  (r = RFail -> Forall (fun o => is_other (o_err o) = false) os -> False).
+Proof.
+  intros w c os w' r cs H. unfold run_op in H.
+  destruct (exec (cmd_del c) (w_store w) os) as [[[[s1 r1] cs1] rest1]|] eqn:E; [|discriminate].
+  destruct rest1; [|discriminate]. inversion H; subst; clear H. simpl.
+  pose proof (del_harmless _ _ _ _ _ _ _ E) as [I D].
+  split; [reflexivity|]. split; [exact I|]. split; [exact D|]. split.
+  { intro X. subst. eapply del_success_clean; eauto. }
+  split.
+  { intros Hc Hf. destruct (del_on_clean _ _ _ _ _ _ _ Hc Hf E) as [-> ->]. split; [reflexivity|]. destruct w; reflexivity. }
+  apply del_inv in E as (o1 & os1 & -> & A1 & [(X & -> & _)|(N1 & o2 & os2 & -> & A2 & _ & _ & _ & ->)]).
+  - split; [right; reflexivity|]. intros _ F. inversion F; subst. congruence.
+  - destruct (is_other (o_err o2)) eqn:N2.
+    + split; [right; reflexivity|]. intros _ F. inversion F as [|? ? _ F']; subst. inversion F'; subst. congruence.
+    + split; [left; reflexivity|]. intro; discriminate.
+Qed.
+
+(* ---------------------------------------------------------------- histories *)
+Lemma run_ops_app : forall h1 h2 w w' rs,
+  run_ops w (h1 ++ h2) = Some (w', rs) ->
+  exists w1 rs1 rs2, run_ops w h1 = Some (w1, rs1) /\ run_ops w1 h2 = Some (w', rs2) /\ rs = rs1 ++ rs2.
+Proof.
+  induction h1 as [|[o os] h1 IH]; intros h2 w w' rs H; simpl in *.
+  - exists w, [], rs. auto.
+  - destruct (run_op w o os) as [[[w1 r1] cs1]|] eqn:E; [|discriminate].
+    destruct (run_ops w1 (h1 ++ h2)) as [[w2 rs2]|] eqn:E2; [|discriminate].
+    inversion H; subst; clear H.
+    apply IH in E2 as (wa & ra & rb & Ea & Eb & ->).
+    exists wa, (r1 :: ra), rb. rewrite Ea. auto.
+Qed.
+
+Lemma run_ops_single : forall w o os w' rs,
+  run_ops w [(o, os)] = Some (w', rs) -> exists r cs, run_op w o os = Some (w', r, cs) /\ rs = [r].
+Proof.
+  intros w o os w' rs H. simpl in H.
+  destruct (run_op w o os) as [[[w1 r1] cs1]|] eqn:E; [|discriminate]. inversion H; subst. eauto.
+Qed.
+
+(* the final delete *)
+Lemma final_del_clean : forall w hist c os w' rs,
+  run_ops w (hist ++ [(OpDel c, os)]) = Some (w', rs) -> last rs RFail = RDelOk -> clean c (w_store w').
+Proof.
+  intros w hist c os w' rs H L.
+  apply run_ops_app in H as (w1 & rs1 & rs2 & _ & H2 & ->).
+  apply run_ops_single in H2 as (r & cs & E & ->).
+  rewrite last_last in L. subst r.
+  apply run_op_del_spec in E as (_ & _ & _ & C & _). apply C; reflexivity.
+Qed.
+
+(* everything present after a history was there before or sits under the primary handle of an ADD of the history *)
+Lemma provenance : forall hist w w' rs,
+  run_ops w hist = Some (w', rs) ->
+  forall p, In p (w_store w') ->
+    In p (w_store w) \/ exists c q os, In (OpAdd c q, os) hist /\ snd p = primary c.
+Proof.
+  induction hist as [|[o os] hist IH]; intros w w' rs H p Hp; simpl in H.
+  - inversion H; subst. auto.
+  - destruct (run_op w o os) as [[[w1 r1] cs1]|] eqn:E; [|discriminate].
+    destruct (run_ops w1 hist) as [[w2 rs2]|] eqn:E2; [|discriminate].
+    inversion H; subst; clear H.
+    destruct (IH _ _ _ E2 p Hp) as [X | (c & q & os' & I & Hh)].
+    + destruct o as [c q | c].
+      * apply run_op_add_spec in E as (_ & B & _). apply B in X as [X|X]; [left; exact X|].
+        right. exists c, q, os. split; [left; reflexivity | exact X].
+      * apply run_op_del_spec in E as (_ & I & _). left. apply I, X.
+    + right. exists c, q, os'. split; [right; exact I | exact Hh].
+Qed.
+
+Definition about (c : container) (o : op) : Prop := o = OpDel c \/ exists q, o = OpAdd c q.
+
+(* a history that only concerns container c never touches a pair outside c's handles *)
+Lemma others_untouched : forall hist c w w' rs,
+  (forall o os, In (o, os) hist -> about c o) ->
+  run_ops w hist = Some (w', rs) ->
+  forall p, In p (w_store w) -> snd p <> primary c -> snd p <> legacy c -> In p (w_store w').
+Proof.
+  induction hist as [|[o os] hist IH]; intros c w w' rs Hab H p Hp N1 N2; simpl in H.
+  - inversion H; subst. exact Hp.
+  - destruct (run_op w o os) as [[[w1 r1] cs1]|] eqn:E; [|discriminate].
+    destruct (run_ops w1 hist) as [[w2 rs2]|] eqn:E2; [|discriminate].
+    inversion H; subst; clear H.
+    apply (IH c w1 w' rs2); auto.
+    + intros o' os' I. apply (Hab o' os'). right; exact I.
+    + destruct (Hab o os (or_introl eq_refl)) as [-> | [q ->]].
+      * apply run_op_del_spec in E as (_ & _ & D & _).
+        destruct (in_dec pair_dec p (w_store w1)) as [I|I]; [exact I|].
+        destruct (D p Hp I); contradiction.
+      * apply run_op_add_spec in E as (A & _). apply A, Hp.
+Qed.
+
+(* life cycle of one container: any adds and deletes (with any admissible faults), then a successful delete *)
+Lemma lifecycle : forall hist c osd w w' rs,
+  (forall o os, In (o, os) hist -> about c o) ->
+  run_ops w (hist ++ [(OpDel c, osd)]) = Some (w', rs) -> last rs RFail = RDelOk ->
+  clean c (w_store w') /\
+  incl (w_store w') (w_store w) /\
+  (forall p, In p (w_store w) -> snd p <> primary c -> snd p <> legacy c -> In p (w_store w')).
+Proof.
+  intros hist c osd w w' rs Hab H L.
+  pose proof (final_del_clean _ _ _ _ _ _ H L) as C.
+  split; [exact C|]. split.
+  - intros p Hp. destruct (provenance _ _ _ _ H p Hp) as [X | (c' & q & os' & I & Hh)]; [exact X|].
+    exfalso. apply in_app_or in I as [I|[I|[]]]; [|discriminate].
+    destruct (Hab _ _ I) as [X | [q' X]]; [discriminate|]. inversion X; subst c'.
+    destruct (C p Hp) as [N _]. contradiction.
+  - apply (others_untouched (hist ++ [(OpDel c, osd)]) c w w' rs); auto.
+    intros o os I. apply in_app_or in I as [I|[I|[]]]; [eauto|]. inversion I; subst. left; reflexivity.
+Qed.
+
+(* repeated deletes: after a successful delete, any further delete whose IPAM calls do not fail succeeds and changes nothing *)
+Lemma del_repeat : forall w c os1 w1 cs1 os2 w2 r2 cs2,
+  run_op w (OpDel c) os1 = Some (w1, RDelOk, cs1) ->
+  Forall (fun o => is_other (o_err o) = false) os2 ->
+  run_op w1 (OpDel c) os2 = Some (w2, r2, cs2) ->
+  r2 = RDelOk /\ w2 = w1.
+Proof.
+  intros w c os1 w1 cs1 os2 w2 r2 cs2 H1 F H2.
+  apply run_op_del_spec in H1 as (_ & _ & _ & C & _).
+  apply run_op_del_spec in H2 as (_ & _ & _ & _ & K & _).
+  apply K; auto.
+Qed.
+
+Lemma del_repeat_exists : forall w c, clean c (w_store w) ->
+  run_op w (OpDel c) [notfound; notfound] =
+  Some (w, RDelOk, [(CRelH (primary c), true); (CRelH (legacy c), true)]).
+Proof.
+  intros w c Hc. unfold run_op. rewrite (del_on_clean_runs _ _ Hc). destruct w; reflexivity.
+Qed.
+
+(* ---------------------------------------------------------------- dual stack: which calls are made *)
+Lemma dualstack_shape : forall w c a4 a6 os w' r cs,
+  num4 a4 = 1 -> num6 a6 = 1 ->
+  run_op w (OpAdd c (RAuto a4 a6)) os = Some (w', r, cs) ->
+  exists o os1, os = o :: os1 /\
+    (o_err o <> ENone ->
+       r = RFail /\ cs = [(CAuto (primary c) 1 1, true)] /\ os1 = [] /\ w_store w' = apply_out (w_store w) o) /\
+    (o_err o = ENone ->
+       forall l4 l6, l4 = olist (o_r4 o) -> l6 = olist (o_r6 o) ->
+       ((l4 = [] /\ l6 <> []) \/ (l4 <> [] /\ l6 = [])) ->
+       r = RFail /\ cs = [(CAuto (primary c) 1 1, true); (CRelIPs (l4 ++ l6), false)] /\
+       exists o', os1 = [o'] /\ (o_err o' = ENone -> incl (w_store w') (w_store w))).
+Proof.
+  intros w c a4 a6 os w' r cs N4 N6 H.
+  pose proof (run_op_add_spec _ _ _ _ _ _ _ H) as (_ & _ & _ & D & _).
+  unfold run_op in H.
+  destruct (exec (cmd_add (w_marker w) c (RAuto a4 a6)) (w_store w) os) as [[[[s1 [m1 r1]] cs1] rest1]|] eqn:E; [|discriminate].
+  destruct rest1; [|discriminate]. inversion H; subst; clear H. cbn [w_store w_marker] in *.
+  unfold cmd_add in E. rewrite exec_pmap, N4, N6 in E.
+  destruct (exec (add_auto (primary c) 1 1) (w_store w) os) as [[[[s2 r2] cs2] rest2]|] eqn:E2; [|discriminate].
+  inversion E; subst; clear E.
+  apply add_auto_inv in E2 as (o & os1 & -> & A & K); auto.
+  exists o, os1. split; [reflexivity|]. split.
+  - intro Er. destruct K as [(_ & -> & -> & <- & ->) | (Er' & _)]; [auto | contradiction].
+  - intros Er l4 l6 -> -> Hone.
+    destruct K as [(Er' & _) | (_ & K)]; [contradiction|]. cbv zeta in K.
+    destruct K as [(_ & L4 & L6 & _) | [(_ & E4 & E6 & _) | (-> & _ & _ & _ & _ & o' & os2 & -> & A' & -> & <- & ->)]].
+    + exfalso. destruct Hone as [[X _]|[_ X]]; rewrite X in *; discriminate.
+    + exfalso. destruct Hone as [[_ X]|[X _]]; contradiction.
+    + split; [reflexivity|]. split; [reflexivity|]. exists o'. split; [reflexivity|].
+      intro Er'. apply D; auto.
+Qed.
+
+(* ---------------------------------------------------------------- the model meets the specification oracle *)
+Lemma incl_b_true : forall a b, incl a b -> incl_b a b = true.
+Proof. intros a b H. unfold incl_b. apply forallb_forall. intros p Hp. apply memp_In, H, Hp. Qed.
+
+Lemma forallb_map_out : forall (f : outcome -> bool) (g : callrec -> bool) ks,
+  (forall k, g k = f (k_out k)) -> forallb g ks = true -> Forall (fun o => f o = true) (map k_out ks).
+Proof.
+  intros f g ks Hfg H. rewrite forallb_forall in H. apply Forall_forall. intros o Ho.
+  apply in_map_iff in Ho as [k [<- Hk]]. rewrite <- Hfg. apply H, Hk.
+Qed.
+
+Lemma is_handle_of_iff : forall c h, is_handle_of c h = true <-> h = primary c \/ h = legacy c.
+Proof.
+  intros c h. unfold is_handle_of, handles. simpl. rewrite !orb_true_iff, !String.eqb_eq. intuition discriminate.
+Qed.
+
+Lemma model_meets_spec : forall w o ks w' r cs,
+  run_op w o (map k_out ks) = Some (w', r, cs) ->
+  ok_step (w_store w) {| s_op := o; s_calls := ks; s_res := r; s_marker := w_marker w'; s_store := w_store w' |} = true.
+Proof.
+  intros w o ks w' r cs H. unfold ok_step; simpl. destruct o as [c q | c].
+  - apply run_op_add_spec in H as (A & B & C & D & NP & ND).
+    apply andb_true_iff. split; [apply andb_true_iff; split|].
+    + apply forallb_forall. intros p Hp. apply orb_true_iff. left. apply memp_In, A, Hp.
+    + apply forallb_forall. intros p Hp. apply orb_true_iff. destruct (B p Hp) as [X|X].
+      * left. apply memp_In, X.
+      * right. apply String.eqb_eq, X.
+    + destruct r as [ips| | |]; try congruence.
+      * specialize (C ips eq_refl). unfold add_goal in C. destruct q as [a4 a6|a].
+        -- destruct C as [C4 C6]. apply andb_true_iff. split; apply orb_true_iff.
+           ++ destruct (num4_01 a4) as [Z|Z]; [left; rewrite Z; reflexivity|right].
+              destruct (C4 Z) as (a & I & F & M). unfold holds_family. apply existsb_exists. exists a.
+              split; [exact I|]. apply andb_true_iff. split; [unfold fam_ok; rewrite F; reflexivity | apply memp_In, M].
+           ++ destruct (num6_01 a6) as [Z|Z]; [left; rewrite Z; reflexivity|right].
+              destruct (C6 Z) as (a & I & F & M). unfold holds_family. apply existsb_exists. exists a.
+              split; [exact I|]. apply andb_true_iff. split; [unfold fam_ok; rewrite F; reflexivity | apply memp_In, M].
+        -- destruct C as [-> M]. apply andb_true_iff. split; [apply mema_In; left; reflexivity | apply memp_In, M].
+      * destruct (forallb no_error ks) eqn:F; [|reflexivity]. simpl. apply incl_b_true, D; [reflexivity|].
+        assert (Forall (fun o => (match o_err o with ENone => true | _ => false end) = true) (map k_out ks)) as X.
+        { apply (forallb_map_out (fun o => match o_err o with ENone => true | _ => false end) no_error); auto. }
+        eapply Forall_impl; [|exact X]. intros o Ho. simpl in Ho. destruct (o_err o); congruence.
+  - apply run_op_del_spec in H as (_ & I & D & C & _ & R & Fl).
+    apply andb_true_iff. split; [apply andb_true_iff; split|].
+    + apply incl_b_true, I.
+    + apply forallb_forall. intros p Hp. destruct (memp p (w_store w')) eqn:M; [reflexivity|]. simpl.
+      apply memp_false in M. apply is_handle_of_iff, D; auto.
+    + destruct R as [-> | ->].
+      * unfold clean_for. apply forallb_forall. intros p Hp. apply negb_true_iff.
+        destruct (is_handle_of c (snd p)) eqn:X; [|reflexivity]. apply is_handle_of_iff in X.
+        destruct (C eq_refl p Hp). tauto.
+      * destruct (forallb not_failed ks) eqn:F; [|reflexivity]. exfalso. apply Fl; [reflexivity|].
+        assert (Forall (fun o => negb (is_other (o_err o)) = true) (map k_out ks)) as X.
+        { apply (forallb_map_out (fun o => negb (is_other (o_err o))) not_failed); auto. }
+        eapply Forall_impl; [|exact X]. intros o Ho. simpl in Ho. apply negb_true_iff in Ho. exact Ho.
 Qed.
